@@ -49,7 +49,7 @@ def build_map(s):
         M[(sec, label)] = (value, unit)
 
     std = s.classes.get('outputs') == 'Outputs' and s.classes.get('economics') in ('Economics', 'SBTEconomics') \
-        and s.classes.get('wellbores') in ('WellBores',) and s.classes.get('surfaceplant', '').startswith('SurfacePlant') \
+        and s.classes.get('wellbores') in ('WellBores', 'SBTWellbores') and s.classes.get('surfaceplant', '').startswith('SurfacePlant') \
         and s.classes.get('surfaceplant') not in ('SurfacePlantAGS', 'SurfacePlantSUTRA', 'SurfacePlant')
     if not std:
         return M, cfg, False
